@@ -208,6 +208,353 @@ def called_kernels(src, rx, what, expect):
     return ks
 
 
+# ------------------------------------------------------------------------------------------------
+# round two: elementwise vector loops (densevector.hh), reductions, the scalar dot (dotproduct.hh),
+# product / transposition loop nests (fmatrix.hh, densematrix.hh, dynmatrix.hh), FMatrixHelp::multAssign*
+# ------------------------------------------------------------------------------------------------
+
+def find_defs(cls, name_rx):
+    """all member function definitions `... <name> ( params ) [const] { body }` whose name matches name_rx
+    -> list of (params, body).  Declarations without a body are skipped."""
+    res = []
+    for m in re.finditer(r"(?<![\w:])(%s)\s*\(" % name_rx, cls):
+        i = m.end() - 1
+        depth = 0
+        j = i
+        while j < len(cls):
+            if cls[j] == "(":
+                depth += 1
+            elif cls[j] == ")":
+                depth -= 1
+                if depth == 0:
+                    break
+            j += 1
+        if j >= len(cls):
+            continue
+        k = j + 1
+        mm = re.match(r"\s*(const)?\s*(noexcept(\([^()]*\))?)?\s*\{", cls[k:])
+        if not mm:
+            continue
+        b = k + mm.end() - 1
+        res.append((cls[i + 1:j], cls[b + 1:match_brace(cls, b) - 1]))
+    return res
+
+
+def one_def(cls, name_rx, what, param_filter=None):
+    ds = find_defs(cls, name_rx)
+    if param_filter is not None:
+        ds = [d for d in ds if param_filter(squeeze(d[0]))]
+    if len(ds) != 1:
+        raise TranslateError("%s: expected exactly one definition, found %d" % (what, len(ds)))
+    return ds[0]
+
+
+LOOPHDR = r"for\((?:std::size_t|size_type|idx_type|typename\w+::size_type|int|unsigned|auto)(%s)=0;(%s)<([^;]+);(?:\+\+(%s)|(%s)\+\+)\)" % ((ID,) * 4)
+
+
+def parse_loop(s, what):
+    """s (squeezed) starts with a for header -> (var, bound, body, rest); body without the outer braces"""
+    m = re.match(LOOPHDR, s)
+    if not m:
+        raise TranslateError("%s: loop header outside the grammar: %r" % (what, s[:120]))
+    v, vb, bound, vc, vd = m.groups()
+    if vb != v or (vc or vd) != v:
+        raise TranslateError("%s: loop header inconsistent: %r" % (what, s[:120]))
+    rest = s[m.end():]
+    if rest.startswith("{"):
+        e = match_brace(rest, 0)
+        return v, bound, rest[1:e - 1], rest[e:]
+    # single statement or nested for without braces
+    if rest.startswith("for("):
+        v2, b2, body2, rest2 = parse_loop(rest, what)
+        used = len(rest) - len(rest2)
+        return v, bound, rest[:used], rest2
+    e = rest.index(";") + 1
+    return v, bound, rest[:e], rest[e:]
+
+
+SIZE_BOUND = r"(?:this->)?(?:size\(\)|N\(\)|dim\(\))"
+
+
+def elem_sig(body, what, self_names=(r"\(\*this\)",), drop=()):
+    """single elementwise loop `for i<size(): T[i] op RHS;` -> (ElemSig text, target-kind)"""
+    b = body
+    for d in drop:
+        b = re.sub(d, "", b)
+    b = re.sub(r"DUNE_ASSERT_BOUNDS\((?:[^()]|\([^()]*\))*\)\s*;", "", b)
+    b = re.sub(r"\bassert\((?:[^()]|\([^()]*\))*\)\s*;", "", b)
+    s = squeeze(b)
+    s = re.sub(r"returnasImp\(\);$", "", s)
+    s = re.sub(r"return\*this;$", "", s)
+    v, bound, stmt, rest = parse_loop(s, what)
+    if not re.fullmatch(SIZE_BOUND, bound):
+        raise TranslateError("%s: loop bound %r is not the size" % (what, bound))
+    return v, stmt, rest
+
+
+EOPS = {"=": ".set", "+=": ".add", "-=": ".sub", "*=": ".mul", "/=": ".div"}
+
+
+def vec_assign_sig(body, what, scalar_alias=None, vec_arg="x", scalar_arg=None):
+    """`(*this)[i] op= RHS` with RHS in x[i] | k | a*x[i]"""
+    drop = []
+    kname = scalar_arg
+    if scalar_alias:
+        # `const value_type& k = kk;`
+        m = re.search(r"const\s+(?:value_type|field_type)\s*&\s*(%s)\s*=\s*%s\s*;" % (ID, scalar_alias), body)
+        if not m:
+            raise TranslateError("%s: scalar alias statement not found" % what)
+        kname = m.group(1)
+        drop.append(re.escape(m.group(0)))
+    v, stmt, rest = elem_sig(body, what, drop=drop)
+    if rest:
+        raise TranslateError("%s: unexpected statements after the loop: %r" % (what, rest))
+    m = re.fullmatch(r"\(\*this\)\[(%s)\](=|\+=|-=|\*=|/=)(.*);" % ID, stmt)
+    if not m or m.group(1) != v:
+        raise TranslateError("%s: statement outside the grammar: %r" % (what, stmt))
+    op, rhs = m.group(2), m.group(3)
+    xi = r"%s\[%s\]" % (vec_arg, re.escape(v))
+    if re.fullmatch(xi, rhs):
+        r = ".x"
+    elif kname and rhs == kname:
+        r = ".k"
+    elif kname and (re.fullmatch(r"%s\*%s" % (re.escape(kname), xi), rhs) or re.fullmatch(r"%s\*%s" % (xi, re.escape(kname)), rhs)):
+        r = ".kx"
+    else:
+        raise TranslateError("%s: right-hand side outside the grammar: %r" % (what, rhs))
+    return "{ op := %s, rhs := %s }" % (EOPS[op], r)
+
+
+def translate_vectors(repo, out):
+    rd = lambda f: strip_comments(open(os.path.join(repo, "dune/common", f)).read())
+    dv = class_body(rd("densevector.hh"), r"template\s*<\s*typename\s+V\s*>\s*class\s+DenseVector\s*\{", "DenseVector")
+    isvec = lambda p: "DenseVector<" in p
+    notvec = lambda p: "DenseVector<" not in p and p != ""
+    out.append("-- densevector.hh: elementwise loops of DenseVector<V>")
+    sigs = {}
+    sigs["plusAssign"] = vec_assign_sig(one_def(dv, r"operator\+=", "DenseVector::operator+=(vector)", isvec)[1], "DenseVector::operator+=(vector)")
+    sigs["minusAssign"] = vec_assign_sig(one_def(dv, r"operator-=", "DenseVector::operator-=(vector)", isvec)[1], "DenseVector::operator-=(vector)")
+    sigs["plusAssignScalar"] = vec_assign_sig(one_def(dv, r"operator\+=", "DenseVector::operator+=(scalar)", notvec)[1], "DenseVector::operator+=(scalar)", scalar_alias="kk")
+    sigs["minusAssignScalar"] = vec_assign_sig(one_def(dv, r"operator-=", "DenseVector::operator-=(scalar)", notvec)[1], "DenseVector::operator-=(scalar)", scalar_alias="kk")
+    sigs["timesAssign"] = vec_assign_sig(one_def(dv, r"operator\*=", "DenseVector::operator*=", notvec)[1], "DenseVector::operator*=", scalar_alias="kk")
+    sigs["divAssign"] = vec_assign_sig(one_def(dv, r"operator/=", "DenseVector::operator/=", notvec)[1], "DenseVector::operator/=", scalar_alias="kk")
+    sigs["axpy"] = vec_assign_sig(one_def(dv, r"axpy", "DenseVector::axpy")[1], "DenseVector::axpy", scalar_arg="a")
+    # unary minus: `V result = asImp(); ... for (...) result[i] = -asImp()[i]; return result;`
+    what = "DenseVector::operator-()"
+    body = one_def(dv, r"operator-", what, lambda p: p == "")[1]
+    if not re.search(r"\b(?:V|derived_type|auto)\s+result\s*=\s*asImp\(\)\s*;", body) and \
+       not re.search(r"\b(?:V|derived_type)\s+result\s*\(\s*asImp\(\)\s*\)\s*;", body):
+        raise TranslateError("%s: the result is not a copy of asImp()" % what)
+    b = re.sub(r"\b(?:V|derived_type|auto)\s+result\s*(?:=\s*asImp\(\)|\(\s*asImp\(\)\s*\))\s*;", "", body)
+    b = re.sub(r"using\s+idx_type\s*=[^;]*;", "", b)
+    v, stmt, rest = elem_sig(b, what)
+    if rest != "returnresult;":
+        raise TranslateError("%s: does not return result: %r" % (what, rest))
+    m = re.fullmatch(r"result\[(%s)\]=-(?:asImp\(\)|\(\*this\))\[(%s)\];" % (ID, ID), stmt)
+    if not m or m.group(1) != v or m.group(2) != v:
+        raise TranslateError("%s: statement outside the grammar: %r" % (what, stmt))
+    sigs["neg"] = "{ op := .set, rhs := .negSelf }"
+    for k in ["plusAssign", "minusAssign", "plusAssignScalar", "minusAssignScalar", "timesAssign", "divAssign", "axpy", "neg"]:
+        out.append("def vsig_%s : ElemSig := %s" % (k, sigs[k]))
+    # binary + and -: copy of *this, compound assignment
+    for name, opname, gen in (("plus", r"operator\+", "plusAssign"), ("minus", r"operator-", "minusAssign")):
+        what = "DenseVector::operator%s(vector)" % ("+" if name == "plus" else "-")
+        body = squeeze(one_def(dv, opname + r"(?!=)", what, isvec)[1])
+        m = re.fullmatch(r"derived_typez=asImp\(\);return\(?z(\+=|-=)b\)?;", body)
+        if not m:
+            raise TranslateError("%s: body outside the grammar: %r" % (what, body))
+        out.append("def v%sVia : ViaAssign := .%s" % (name, "plusAssign" if m.group(1) == "+=" else "minusAssign"))
+    # comparison: `if ((*this)[i]!=x[i]) return false; ... return true;` and `!=` as its negation
+    what = "DenseVector::operator=="
+    body = one_def(dv, r"operator==", what, isvec)[1]
+    v, stmt, rest = elem_sig(body, what)
+    m = re.fullmatch(r"if\(\(\*this\)\[(%s)\]!=x\[(%s)\]\)returnfalse;" % (ID, ID), stmt)
+    if not m or m.group(1) != v or m.group(2) != v or rest != "returntrue;":
+        raise TranslateError("%s: body outside the grammar: %r %r" % (what, stmt, rest))
+    body = squeeze(one_def(dv, r"operator!=", "DenseVector::operator!=", isvec)[1])
+    if body != "return!operator==(x);":
+        raise TranslateError("DenseVector::operator!=: body outside the grammar: %r" % body)
+    out.append("def veqEntrywise : Bool := true   -- operator== returns false at the first i with (*this)[i] != x[i]; operator!= negates it")
+    # reductions
+    for name, rx, gen in (("dotT", r"operator\*(?!=)", "prod"), ("dot", r"dot", "dot")):
+        what = "DenseVector::%s" % ("operator*" if name == "dotT" else "dot")
+        body = one_def(dv, rx, what, isvec)[1]
+        b = re.sub(r"typedef\s+typename\s+PromotionTraits<[^;]*>::PromotedType\s+PromotedType\s*;", "", body)
+        if not re.search(r"PromotedType\s+result\s*\(\s*0\s*\)\s*;", b):
+            raise TranslateError("%s: the accumulator does not start at 0" % what)
+        b = re.sub(r"PromotedType\s+result\s*\(\s*0\s*\)\s*;", "", b)
+        v, stmt, rest = elem_sig(b, what)
+        if rest != "returnresult;":
+            raise TranslateError("%s: does not return result: %r" % (what, rest))
+        a1 = r"\(\*this\)\[%s\]" % re.escape(v)
+        a2 = r"x\[%s\]" % re.escape(v)
+        if name == "dotT":
+            if re.fullmatch(r"result\+=(?:PromotedType\()?%s\*%s\)?;" % (a1, a2), stmt):
+                order = ".selfX"
+            elif re.fullmatch(r"result\+=(?:PromotedType\()?%s\*%s\)?;" % (a2, a1), stmt):
+                order = ".xSelf"
+            else:
+                raise TranslateError("%s: summand outside the grammar: %r" % (what, stmt))
+        else:
+            if re.fullmatch(r"result\+=(?:Dune::)?dot\(%s,%s\);" % (a1, a2), stmt):
+                order = ".selfX"
+            elif re.fullmatch(r"result\+=(?:Dune::)?dot\(%s,%s\);" % (a2, a1), stmt):
+                order = ".xSelf"
+            else:
+                raise TranslateError("%s: summand outside the grammar: %r" % (what, stmt))
+        out.append("def v%sOrder : ArgOrder := %s" % (name, order))
+    # dotproduct.hh: the scalar dot for complex-like numbers and for real numbers
+    dp = squeeze(rd("dotproduct.hh"))
+    rets = re.findall(r"->typenamestd::enable_if<IsNumber<A>::value&&!IsVector<A>::value&&(!?)std::is_same<typenameFieldTraits<A>::field_type,typenameFieldTraits<A>::real_type>::value,decltype\(([^()]*(?:\([^()]*\))?[^()]*)\)>::type\{return([^;]*);\}", dp)
+    if len(rets) != 2:
+        raise TranslateError("dotproduct.hh: expected the two scalar overloads of dot, found %d" % len(rets))
+    def conj_arg(expr, what):
+        if expr in ("conj(a)*b", "b*conj(a)"):
+            return ".first"
+        if expr in ("a*conj(b)", "conj(b)*a"):
+            return ".second"
+        if expr in ("a*b", "b*a"):
+            return ".none"
+        raise TranslateError("%s: return expression outside the grammar: %r" % (what, expr))
+    got = {}
+    for neg, _, expr in rets:
+        got["complex" if neg == "!" else "real"] = conj_arg(expr, "dotproduct.hh dot")
+    if set(got) != {"complex", "real"}:
+        raise TranslateError("dotproduct.hh: overload conditions outside the grammar")
+    out.append("-- dotproduct.hh: dot(a,b) for numbers whose field type is not / is its real type")
+    out.append("def scalarDotComplex : ConjArg := %s" % got["complex"])
+    out.append("def scalarDotReal : ConjArg := %s" % got["real"])
+    m = re.search(r"template<classA,classB>autodotT\(constA&a,constB&b\)->decltype\(a\*b\)\{return(a\*b|b\*a);\}", dp)
+    if not m:
+        raise TranslateError("dotproduct.hh: dotT outside the grammar")
+    out.append("")
+
+
+PEXT = {"fstRows": ".fstRows", "fstCols": ".fstCols", "sndRows": ".sndRows", "sndCols": ".sndCols"}
+
+
+def prod_sig(body, what, target, fst, snd, bounds, pre=()):
+    """three-deep product nest.  target/fst/snd: regexes of the matrix names; bounds: {source bound text: extent}"""
+    b = body
+    for d in pre:
+        b, n = re.subn(d, "", b)
+        if n != 1:
+            raise TranslateError("%s: expected preamble statement %r" % (what, d))
+    b = re.sub(r"DUNE_ASSERT_BOUNDS\((?:[^()]|\([^()]*\))*\)\s*;", "", b)
+    b = re.sub(r"static_assert\((?:[^()]|\([^()]*\))*\)\s*;", "", b)
+    b = re.sub(r"typedef\s+typename\s+[^;]*size_type\s+size_type\s*;", "", b)
+    s = squeeze(b)
+    s = re.sub(r"return(?:asImp\(\)|\*this|result|C|ret)?;$", "", s)
+    vi, bi, body_i, rest = parse_loop(s, what)
+    if rest:
+        raise TranslateError("%s: unexpected statements after the loop nest: %r" % (what, rest))
+    vj, bj, body_j, rest = parse_loop(body_i, what)
+    if rest:
+        raise TranslateError("%s: unexpected statements after the middle loop: %r" % (what, rest))
+    init = False
+    tr0 = tc0 = None
+    if not body_j.startswith("for("):
+        e = body_j.index(";") + 1
+        st, body_j = body_j[:e], body_j[e:]
+        m = re.fullmatch(r"(%s)\[(%s)\]\[(%s)\]=(?:0|0\.0|(?:%s)\(0\));" % (target, ID, ID, ID), st)
+        if not m:
+            raise TranslateError("%s: statement in front of the inner loop outside the grammar: %r" % (what, st))
+        init = True
+        tr0, tc0 = m.group(2), m.group(3)
+    vk, bk, stmt, rest = parse_loop(body_j, what)
+    if rest:
+        raise TranslateError("%s: unexpected statements after the inner loop: %r" % (what, rest))
+    if len({vi, vj, vk}) != 3:
+        raise TranslateError("%s: loop variables not distinct" % what)
+    var = {vi: ".i", vj: ".j", vk: ".k"}
+    m = re.fullmatch(r"(%s)\[(%s)\]\[(%s)\]\+=(.*);" % (target, ID, ID), stmt)
+    if not m:
+        raise TranslateError("%s: update statement outside the grammar: %r" % (what, stmt))
+    tr, tc, rhs = m.group(2), m.group(3), m.group(4)
+    if init and (tr0, tc0) != (tr, tc):
+        raise TranslateError("%s: the zeroed entry is not the accumulated entry" % what)
+    if tr not in (vi, vj) or tc not in (vi, vj):
+        raise TranslateError("%s: target index uses the inner loop variable" % what)
+    fac = r"(%s|%s)\[(%s)\]\[(%s)\]" % (fst, snd, ID, ID)
+    m = re.fullmatch(r"%s\*%s" % (fac, fac), rhs)
+    if not m:
+        raise TranslateError("%s: product outside the grammar (does it read the matrix being written?): %r" % (what, rhs))
+    facs = [(m.group(1), m.group(2), m.group(3)), (m.group(4), m.group(5), m.group(6))]
+    same = re.fullmatch(fst, facs[0][0]) and re.fullmatch(snd, facs[0][0])   # fst and snd are the same object
+    res = []
+    if same:
+        # both factors read the same matrix: first factor = fst, second = snd, in the canonical order of their indices
+        facs.sort(key=lambda f: (var.get(f[1], "?"), var.get(f[2], "?")))
+        res = [("fst", facs[0]), ("snd", facs[1])]
+    else:
+        for f in facs:
+            res.append(("fst" if re.fullmatch(fst, f[0]) else "snd", f))
+        if {r[0] for r in res} != {"fst", "snd"}:
+            raise TranslateError("%s: the product does not read both inputs: %r" % (what, rhs))
+        res.sort(key=lambda r: r[0])   # the scalars commute: first input first
+    for _, f in res:
+        if f[1] not in var or f[2] not in var:
+            raise TranslateError("%s: factor index is not a loop variable: %r" % (what, rhs))
+    def ext(bt):
+        if bt not in bounds:
+            raise TranslateError("%s: loop bound %r outside the grammar" % (what, bt))
+        return PEXT[bounds[bt]]
+    return ("{ extI := %s, extJ := %s, extK := %s, tr := %s, tc := %s, init := %s,\n"
+            "    f1 := { opd := .fst, r := %s, c := %s }, f2 := { opd := .snd, r := %s, c := %s } }"
+            % (ext(bi), ext(bj), ext(bk), var[tr], var[tc], "true" if init else "false",
+               var[res[0][1][1]], var[res[0][1][2]], var[res[1][1][1]], var[res[1][1][2]]))
+
+
+def trans_sig(body, what, rows_b, cols_b, decl):
+    b, n = re.subn(decl, "", body)
+    if n != 1:
+        raise TranslateError("%s: declaration of the result outside the grammar" % what)
+    s = squeeze(b)
+    if not s.endswith("returnAT;"):
+        raise TranslateError("%s: does not return AT" % what)
+    s = s[:-len("returnAT;")]
+    vo, bo, body_o, rest = parse_loop(s, what)
+    if rest:
+        raise TranslateError("%s: unexpected statements: %r" % (what, rest))
+    vn, bn, stmt, rest = parse_loop(body_o, what)
+    if rest or vo == vn:
+        raise TranslateError("%s: loop nest outside the grammar" % what)
+    def dim(bt):
+        if re.fullmatch(rows_b, bt):
+            return ".rows"
+        if re.fullmatch(cols_b, bt):
+            return ".cols"
+        raise TranslateError("%s: loop bound %r outside the grammar" % (what, bt))
+    m = re.fullmatch(r"AT\[(%s)\]\[(%s)\]=\(\*this\)\[(%s)\]\[(%s)\];" % ((ID,) * 4), stmt)
+    if not m:
+        raise TranslateError("%s: statement outside the grammar: %r" % (what, stmt))
+    var = {vo: ".outer", vn: ".inner"}
+    for x in m.groups():
+        if x not in var:
+            raise TranslateError("%s: index %r is not a loop variable" % (what, x))
+    return ("{ extO := %s, extI := %s, tr := %s, tc := %s, sr := %s, sc := %s }"
+            % (dim(bo), dim(bn), var[m.group(1)], var[m.group(2)], var[m.group(3)], var[m.group(4)]))
+
+
+def helper_kernel_sig(src, name, what, mat, xname, yname, rows_b, cols_b):
+    """FMatrixHelp / DenseMatrixHelp free functions with the loop nest of mv / mtv: rename to the kernel grammar"""
+    m = re.search(r"static\s+inline\s+void\s+%s\s*\(" % name, src)
+    if not m or len(re.findall(r"static\s+inline\s+void\s+%s\s*\(" % name, src)) != 1:
+        raise TranslateError("%s: definition not found (or not unique)" % what)
+    b0 = src.index("{", m.end())
+    body = src[b0 + 1:match_brace(src, b0) - 1]
+    body = re.sub(r"DUNE_ASSERT_BOUNDS\((?:[^()]|\([^()]*\))*\)\s*;", "", body)
+    body = re.sub(r"typedef\s+typename\s+[^;]*::size_type\s+size_type\s*;", "", body)
+    s = squeeze(body)
+    s = re.sub(r"<(?:%s);" % rows_b, "<rows();", s)
+    s = re.sub(r"<(?:%s);" % cols_b, "<cols();", s)
+    s = re.sub(r"\b%s\[" % re.escape(mat), "(*this)[", s)
+    s = re.sub(r"\b%s\[" % re.escape(xname), "xx[", s)
+    s = re.sub(r"\b%s\[" % re.escape(yname), "yy[", s)
+    s = re.sub(r"yy\[(%s)\]=0\.0;" % ID, r"yy[\1]=0;", s)
+    return dense_sig(s, name)
+
+
 def translate(repo):
     rd = lambda f: strip_comments(open(os.path.join(repo, "dune/common", f)).read())
     out = ["-- GENERATED by tools/translators/tr_c01.py from dune/common/{densematrix,diagonalmatrix,transpose,fmatrix}.hh"
@@ -273,6 +620,79 @@ def translate(repo):
     ks = called_kernels(fsrc, r"matrixA\.(%s)\(B_j,result_j\);" % ID, "fmatrix.hh Other*FieldMatrix", 2)
     out.append("def otherMulFm : KName := .%s   -- result column j = A.<kernel>(column j of B)" % ks[0])
     out.append("def otherMulFm11 : KName := .%s" % ks[1])
+    out.append("")
+    translate_vectors(repo, out)
+    # product loop nests
+    out.append("-- three-deep product loop nests (first / second input, loop extents, target entry, factors)")
+    fraw = rd("fmatrix.hh")
+    fm = class_body(fraw, r"template\s*<\s*class\s+K\s*,\s*int\s+ROWS\s*,\s*int\s+COLS\s*>\s*class\s+FieldMatrix\s*:", "FieldMatrix")
+    body = one_def(fm, r"operator\*", "FieldMatrix operator*(FieldMatrix,FieldMatrix)",
+                   lambda p: "FieldMatrix<OtherScalar,COLS,otherCols>" in p)[1]
+    out.append("def psig_fmMul : ProdSig :=\n  " + prod_sig(
+        body, "fmatrix.hh operator*(FieldMatrix,FieldMatrix)", "result", "matrixA", "matrixB",
+        {"matrixA.mat_rows()": "fstRows", "matrixA.mat_cols()": "fstCols", "matrixB.mat_rows()": "sndRows",
+         "matrixB.mat_cols()": "sndCols", "ROWS": "fstRows", "rows": "fstRows", "COLS": "fstCols", "cols": "fstCols", "otherCols": "sndCols"},
+        pre=[r"FieldMatrix<[^;]*>\s*result\s*;"]))
+    body = one_def(fm, r"leftmultiplyany", "FieldMatrix::leftmultiplyany")[1]
+    out.append("def psig_fmLeftmultiplyany : ProdSig :=\n  " + prod_sig(
+        body, "FieldMatrix::leftmultiplyany", "C", "M", r"\(\*this\)",
+        {"l": "fstRows", "rows": "sndRows", "ROWS": "sndRows", "cols": "sndCols", "COLS": "sndCols"},
+        pre=[r"FieldMatrix<K,l,cols>\s*C\s*;"]))
+    body = one_def(fm, r"rightmultiply", "FieldMatrix::rightmultiply")[1]
+    out.append("def psig_fmRightmultiply : ProdSig :=\n  " + prod_sig(
+        body, "FieldMatrix::rightmultiply", r"\(\*this\)", "C", "M",
+        {"rows": "fstRows", "ROWS": "fstRows", "cols": "fstCols", "COLS": "fstCols", "r": "sndRows", "c": "sndCols"},
+        pre=[r"FieldMatrix<K,rows,cols>\s*C\s*\(\s*\*this\s*\)\s*;"]))
+    body = one_def(fm, r"rightmultiplyany", "FieldMatrix::rightmultiplyany")[1]
+    out.append("def psig_fmRightmultiplyany : ProdSig :=\n  " + prod_sig(
+        body, "FieldMatrix::rightmultiplyany", "C", r"\(\*this\)", "M",
+        {"rows": "fstRows", "ROWS": "fstRows", "cols": "fstCols", "COLS": "fstCols", "l": "sndCols"},
+        pre=[r"FieldMatrix<K,rows,l>\s*C\s*;"]))
+    body = one_def(dm, r"leftmultiply", "DenseMatrix::leftmultiply")[1]
+    out.append("def psig_dmLeftmultiply : ProdSig :=\n  " + prod_sig(
+        body, "DenseMatrix::leftmultiply", r"\(\*this\)", "M", "C",
+        {"rows()": "sndRows", "N()": "sndRows", "cols()": "sndCols", "M()": "sndCols", "M.rows()": "fstRows", "M.cols()": "fstCols"},
+        pre=[r"AutonomousValue<MAT>\s*C\s*\(\s*asImp\(\)\s*\)\s*;"]))
+    body = one_def(dm, r"rightmultiply", "DenseMatrix::rightmultiply")[1]
+    out.append("def psig_dmRightmultiply : ProdSig :=\n  " + prod_sig(
+        body, "DenseMatrix::rightmultiply", r"\(\*this\)", "C", "M",
+        {"rows()": "fstRows", "N()": "fstRows", "cols()": "fstCols", "M()": "fstCols", "M.rows()": "sndRows", "M.cols()": "sndCols"},
+        pre=[r"AutonomousValue<MAT>\s*C\s*\(\s*asImp\(\)\s*\)\s*;"]))
+    def free_body(src, rx, what):
+        ms = list(re.finditer(rx, src))
+        if len(ms) != 1:
+            raise TranslateError("%s: definition not found (or not unique)" % what)
+        b0 = src.index("{", ms[0].end())
+        return src[b0 + 1:match_brace(src, b0) - 1]
+    body = free_body(fraw, r"static\s+inline\s+void\s+multMatrix\s*\(", "FMatrixHelp::multMatrix")
+    out.append("def psig_multMatrix : ProdSig :=\n  " + prod_sig(
+        body, "FMatrixHelp::multMatrix", "ret", "A", "B", {"m": "fstRows", "n": "fstCols", "p": "sndCols"}))
+    body = free_body(fraw, r"static\s+inline\s+void\s+multTransposedMatrix\s*\(", "FMatrixHelp::multTransposedMatrix")
+    out.append("def psig_multTransposedMatrix : ProdSig :=\n  " + prod_sig(
+        body, "FMatrixHelp::multTransposedMatrix", "ret", "matrix", "matrix", {"rows": "fstRows", "cols": "fstCols"}))
+    out.append("")
+    out.append("-- transposed(): FieldMatrix, DynamicMatrix")
+    body = one_def(fm, r"transposed", "FieldMatrix::transposed")[1]
+    out.append("def tsig_fm : TransSig := " + trans_sig(body, "FieldMatrix::transposed", r"ROWS|rows", r"COLS|cols",
+                                                         r"(?:Dune::)?FieldMatrix<K,\s*COLS,\s*ROWS>\s*AT\s*;"))
+    dyn = class_body(rd("dynmatrix.hh"), r"template\s*<\s*class\s+K\s*>\s*class\s+DynamicMatrix\s*:", "DynamicMatrix")
+    body = one_def(dyn, r"transposed", "DynamicMatrix::transposed")[1]
+    out.append("def tsig_dyn : TransSig := " + trans_sig(body, "DynamicMatrix::transposed", r"this->N\(\)|this->rows\(\)|rows\(\)|N\(\)",
+                                                          r"this->M\(\)|this->cols\(\)|cols\(\)|M\(\)",
+                                                          r"DynamicMatrix\s+AT\s*\(\s*this->M\(\)\s*,\s*this->N\(\)\s*\)\s*;"))
+    out.append("")
+    out.append("-- DenseMatrixHelp::multAssign, FMatrixHelp::multAssignTransposed (the loop nests of mv / mtv)")
+    out.append("def sig_multAssign : KernelSig :=\n  " + helper_kernel_sig(
+        rd("densematrix.hh"), "multAssign", "DenseMatrixHelp::multAssign", "matrix", "x", "ret", r"matrix\.rows\(\)|matrix\.N\(\)", r"matrix\.cols\(\)|matrix\.M\(\)"))
+    out.append("def sig_multAssignTransposed : KernelSig :=\n  " + helper_kernel_sig(
+        fraw, "multAssignTransposed", "FMatrixHelp::multAssignTransposed", "matrix", "x", "ret", r"rows", r"cols"))
+    hs = squeeze(fraw)
+    if "usingDune::DenseMatrixHelp::multAssign;" not in hs:
+        raise TranslateError("fmatrix.hh: FMatrixHelp::multAssign is not DenseMatrixHelp::multAssign")
+    if not re.search(r"mult\(constFieldMatrix<K,rows,cols>&matrix,constFieldVector<K,cols>&x\)\{FieldVector<K,rows>ret;multAssign\(matrix,x,ret\);returnret;\}", hs):
+        raise TranslateError("fmatrix.hh: FMatrixHelp::mult outside the grammar")
+    if not re.search(r"multTransposed\(constFieldMatrix<K,rows,cols>&matrix,constFieldVector<K,rows>&x\)\{FieldVector<K,cols>ret;multAssignTransposed\(matrix,x,ret\);returnret;\}", hs):
+        raise TranslateError("fmatrix.hh: FMatrixHelp::multTransposed outside the grammar")
     out.append("")
     out.append("end DV.C01.Gen")
     return [("DuneVerif/Gen/C01.lean", "\n".join(out) + "\n")]
